@@ -141,9 +141,14 @@ def contract_files():
                 yield crate, "src/%s.rs" % rel, os.path.join(d, f)
 
 
-def load_static():
+def load_static(generated=None):
+    """generated: {name: text} for `//@include generated:<name>` directives (harnesses may live there)"""
     obs = []
     for crate, src, path in contract_files():
         with open(path) as fh:
-            obs += parse_contract_text(fh.read(), crate, src, path)
+            text = fh.read()
+        if generated:
+            for k, v in generated.items():
+                text = text.replace("//@include generated:%s" % k, v)
+        obs += parse_contract_text(text, crate, src, path)
     return obs
